@@ -693,3 +693,35 @@ def check(ctx):
     # ================================================================ model correspondence
     ctx.correspond("inst", cases, agree=agree, describe=lambda i: i)
     ctx.correspond("inst-span", span_cases, agree=agree, describe=lambda i: i)
+
+
+def replay(ctx, data):
+    """./check C17 --replay <file>: re-run the recorded failing input on the real code.
+    Exit 1 while the recorded (wrong) answer is still produced, 0 once it is gone."""
+    import re
+    R = ctx.real
+    canon = make_canon(R)
+    v = data.get("first") or {}
+    text = v.get("input")
+    if not isinstance(text, str):
+        print("replay: nothing to re-run (broken obligation, no failing input): %s" % data.get("no_longer_checks"))
+        return 1
+    m = re.match(r"dispatch\('([^']+)', \[#([^#]*)#, #([^#]*)#\]\)$", text)
+    if m:
+        try:
+            with core.alarm(5):
+                res = ("ok", R.functions.dispatch(m.group(1), [R.types.instant_from_iso(m.group(2)),
+                                                                R.types.instant_from_iso(m.group(3))]))
+        except BaseException as e:  # noqa
+            res = ("err", core.err_code(e))
+    else:
+        res = R.value(text)
+    got = canon(res)
+    print("replay input:    %s" % text)
+    print("replay expected: %s" % v.get("expected"))
+    print("replay recorded: %s" % v.get("actual"))
+    print("replay now:      %s" % got)
+    still = got == v.get("actual")
+    if still:
+        print("VIOLATION property=C17 replay reproduces")
+    return 1 if still else 0
